@@ -466,6 +466,28 @@ func runC15(c *Ctx) {
 						rsvClear[r] = true
 					}
 				}
+				// the three bits tested at once: f[0] & M == 0 with M covering RSV1|RSV2|RSV3
+				if op, x, y, ok := l.cmp(); ok && op == token.EQL && isConstInt(y, 0) {
+					if and, ok := stripConv(x).(*ssa.BinOp); ok && and.Op == token.AND {
+						for _, pair := range [][2]ssa.Value{{and.X, and.Y}, {and.Y, and.X}} {
+							m, isK := constInt(pair[1])
+							u, isLoad := stripConv(pair[0]).(*ssa.UnOp)
+							if !isK || !isLoad || u.Op != token.MUL {
+								continue
+							}
+							ia, isIA := u.X.(*ssa.IndexAddr)
+							if !isIA || !isConstInt(ia.Index, 0) || resolveCell(ia.X) != ssa.Value(fn.Params[1]) && stripConv(ia.X) != ssa.Value(fn.Params[1]) {
+								continue
+							}
+							for i, r := range rsv {
+								bit, _ := constantInt(p.Const(ws, []string{"bitRSV1", "bitRSV2", "bitRSV3"}[i]))
+								if m&bit == bit {
+									rsvClear[r] = true
+								}
+							}
+						}
+					}
+				}
 				if k, eq, ok := enumTest(l.Lit, w.role); ok {
 					if eq {
 						roleEq[k] = true
